@@ -50,12 +50,59 @@ def timer_inv(cname, f):
     return t == 'F'
 
 
+def _inline_id_helpers(P, A, init):
+    """`self._id = Asset._next_id()` with `def _next_id(): Asset._id_counter += 1; return Asset._id_counter` (static / class method of Asset
+    without parameters, straight-line body ending in its only return) reads as the helper's statements followed by `self._id = <returned value>`"""
+    import copy
+    out = copy.copy(init)
+    body = []
+    changed = False
+    for st in init.body:
+        v = st.value if isinstance(st, ast.Assign) and len(st.targets) == 1 else None
+        fd = None
+        if isinstance(v, ast.Call) and not v.args and not v.keywords and isinstance(v.func, ast.Attribute) \
+                and ast.unparse(v.func.value) in ('Asset', 'self', 'type(self)', 'self.__class__') and v.func.attr in A.methods:
+            fd = A.methods[v.func.attr]
+            hb = [s_ for s_ in fd.body if not (isinstance(s_, ast.Expr) and isinstance(s_.value, ast.Constant))]
+            params = [a.arg for a in fd.args.args]
+            deco = [ast.unparse(d) for d in fd.decorator_list]
+            straight = hb and isinstance(hb[-1], ast.Return) and hb[-1].value is not None and \
+                all(isinstance(s_, (ast.Assign, ast.AugAssign)) for s_ in hb[:-1]) and not any(isinstance(x, ast.Return) for s_ in hb[:-1] for x in ast.walk(s_))
+            if not straight or not ((deco == ['staticmethod'] and not params) or (deco == ['classmethod'] and len(params) == 1) or (not deco and params == ['self'])):
+                fd = None
+        if fd is None:
+            body.append(st)
+            continue
+        recv = ast.unparse(v.func.value)
+
+        class Put(ast.NodeTransformer):
+            def visit_Name(self_, x):
+                if params and x.id == params[0] and isinstance(x.ctx, ast.Load):
+                    return ast.copy_location(ast.parse(recv if deco != ['classmethod'] else ('Asset' if recv == 'Asset' else 'type(self)'), mode='eval').body, x)
+                return x
+        for s_ in hb[:-1]:
+            s2 = ast.fix_missing_locations(Put().visit(copy.deepcopy(s_)))
+            for x in ast.walk(s2):
+                if hasattr(x, 'lineno'):
+                    x.lineno = st.lineno
+            body.append(s2)
+        fin = copy.copy(st)
+        fin.value = Put().visit(copy.deepcopy(hb[-1].value))
+        fin.lineno = st.lineno + 0.5
+        body.append(ast.fix_missing_locations(fin)); fin.lineno = st.lineno + 0.5
+        changed = True
+    if not changed:
+        return init
+    out.body = body
+    return out
+
+
 def unique_ids(ctx, o):
     """asset ids are unique across ALL classes: one counter, owned by class Asset, incremented by one per construction, copied into _id
     (events are paused / cancelled by id, so two devices sharing an id would stop each other's timers)"""
     P = ctx.P
     A = P.cls('Asset')
-    init = P.method(A, '__init__')[1]
+    init = _inline_id_helpers(P, A, P.method(A, '__init__')[1])
     incs, ids = [], []
     for x in ast.walk(init):
         if isinstance(x, (ast.AugAssign, ast.Assign)):
@@ -87,11 +134,12 @@ def unique_ids(ctx, o):
                'two devices of different classes can share an id, and pausing or cancelling the events of one stops the other', file=A.mod.path, line=init.lineno)
     else:
         o.witness('unique-ids')
+    id_writers = inv.covered(P, {'__init__'})        # the constructor and private helpers only constructors call (`Asset._next_id()`)
     for s_ in inv.attr_stores(P, '_id') + inv.attr_stores(P, '_id_counter'):
         o.count()
         if s_.func is None:
             continue          # class attribute `_id_counter = 0`
-        if not (s_.cls is A and s_.func.name == '__init__'):
+        if not (s_.cls is A and s_.func.name in id_writers):
             o.fail(P, s_.ctx, s_.stmt, 'an asset id / the id counter is written outside Asset.__init__', file=s_.mod.path, line=s_.line)
     pg = P.lookup_prop(A, 'id', 'get')
     o.count()
